@@ -233,6 +233,16 @@ def runRestLine (r : Report) (sec : Nat) (l : Line) (gated : Bool) : Report := I
         if atRet = Spec.timeout reasonBytes .canceled then r := r.addCover "saw-499"
         if results.any (· == .errTimeout) then r := r.addCover "saw-ErrHandlerTimeout"
       | _, _, _, _ => r := r.mismatch sec l.idx "parsable-observation" impl
+    else if !wrapped && dur > 0 then
+      -- exempt request (websocket upgrade / event stream): the timeout must not touch it
+      let expected := (simRest script kind k hdr dur).sret
+      let refused : Bool := match parseResults (obsOf l "results") with
+        | some (rs, _) => rs.any (· == .errTimeout)
+        | none => true
+      if refused then
+        r := r.violation sec l.idx s!"exempt request (websocket/event-stream): a Write was refused with ErrHandlerTimeout: op=[{joinSp l.op}] impl=[{impl}]"
+      if expected = "blocked" && obsOf l "sret" ≠ "blocked" then
+        r := r.violation sec l.idx s!"exempt request (websocket/event-stream) was cut off by the timeout: op=[{joinSp l.op}] impl=[{impl}]"
     else if wrapped then
       -- Flush is outside the property's quantified behaviours: count what it does, never alarm
       match parseView (obsOf l "atret"), parseView (obsOf l "final") with
